@@ -125,6 +125,7 @@ fn seq_spec(ctx: &Ctx, pool: usize, buffer: usize) -> SeqSpec {
         oracle: seq_oracle(),
         keys: vec![1, 2, 3],
         canon_sketch: true,
+        ghost_key: None,
         max_states: 2_000_000,
         time_cap_s: if ctx.quick() { 10.0 } else { 300.0 },
     }
